@@ -170,6 +170,12 @@ pub fn classify_chunks(chunks: &[Chunk], enc: &EncodedLzma2, st: &mut LocalStats
                 if lay.unpacked > 65536 {
                     st.class("size:unpacked>64KiB");
                 }
+                if lay.unpacked % 65536 == 0 {
+                    st.class("size:unpacked exact multiple of 64KiB");
+                    if (lay.unpacked / 65536) % 2 == 0 {
+                        st.class("size:unpacked exact multiple of 128KiB");
+                    }
+                }
                 if lay.unpacked >= (1 << 21) - 273 {
                     st.class("size:unpacked~2MiB");
                 }
@@ -187,6 +193,9 @@ pub fn classify_chunks(chunks: &[Chunk], enc: &EncodedLzma2, st: &mut LocalStats
     let _ = since_reset;
     if chunks.len() >= 2 {
         st.class("chunks>=2");
+    }
+    if chunks.len() > 255 {
+        st.class("chunks>255");
     }
     L2Shape {
         nontrivial: chunks.len() >= 2 && n_comp >= 1,
@@ -265,11 +274,13 @@ impl Property for C02 {
             Tier::Quick => prop_oneof![
                 10 => (abs_chunks(6, 30, 30, false), Just(200_000usize)),
                 1 => (abs_chunks(4, 60, 100, true), Just(3usize << 20)),
+                1 => (many_tiny_chunks(), Just(200_000usize)),
             ]
             .boxed(),
             Tier::Thorough => prop_oneof![
                 10 => (abs_chunks(8, 40, 40, false), Just(300_000usize)),
                 2 => (abs_chunks(6, 200, 300, true), Just(5usize << 20)),
+                1 => (many_tiny_chunks(), Just(300_000usize)),
             ]
             .boxed(),
         };
@@ -310,6 +321,8 @@ impl Property for C02 {
             ("size:packed>60000", 3 * m),
             ("size:raw=65536", 10 * m),
             ("size:raw=1", 30 * m),
+            ("chunks>255", 500 * m),
+            ("size:unpacked exact multiple of 128KiB", 100 * m),
         ]
     }
 
